@@ -24,6 +24,8 @@
 import JetVerif.Lemmas.LexNoCrash
 import JetVerif.Lemmas.ParseTermProd
 import JetVerif.Props.C02P
+import JetVerif.Props.C02H
+import JetVerif.Lemmas.LexEof
 
 namespace JetVerif.Props.C02L
 open JetVerif JetVerif.Lex JetVerif.Utf8
@@ -80,6 +82,7 @@ theorem lexer_terminates (l r lc rc input : Bytes) :
 /-- what the lexer produces is what the parser theorems assume (`WfItems`) -/
 theorem lexer_output_satisfies_parser_assumptions (l r lc rc input : Bytes) (evs : List Event)
     (hl : lexRun (mkDelims l r lc rc) input = .done evs) : C02P.WfItems input (Parse.itemsOf evs) := by
+  refine ⟨?_, lexRun_items_eof_last (mkDelims l r lc rc) input evs hl⟩
   intro it hit
   have hpos := lexer_items_are_well_formed l r lc rc input
   rw [hl] at hpos
@@ -137,6 +140,29 @@ theorem parseSource_error_names_a_source_line (cfg : Parse.Cfg) (l r lc rc name 
     | unsupported w' => rw [hp] at he; simp at he
   | crash m e => rw [hl] at he; simp at he
   | outOfFuel e => rw [hl] at he; simp at he
+
+/-- **`Set.parse` leaves no goroutine behind** (the model's part of it): for every source, delimiter
+    configuration, literal table and loader - if the parser returns a tree, the lexer goroutine has nothing
+    left to send (it sent `itemEOF` last, the parser received it, the goroutine closed the channel and
+    returned); if the parser fails, what `Template.recover` does on the error path - as regenerated from the
+    source - lets the goroutine send whatever it had left and finish. -/
+theorem set_parse_leaves_no_goroutine (cfg : Parse.Cfg) (l r lc rc name input : Bytes) (evs : List Event)
+    (hl : lexRun (mkDelims l r lc rc) input = .done evs) :
+    match Parse.parseTemplate cfg (Parse.fuelFor (Parse.itemsOf evs))
+        { input := input, name := name, toks := Parse.itemsOf evs } with
+    | .ok _ s' => Handover.finished s'.toks = true
+    | .err _ _ => ∀ left : List Parse.Item, Handover.finished (Handover.run Handover.errorPathActs left) = true
+    | _ => True := by
+  have hw := lexer_output_satisfies_parser_assumptions l r lc rc input evs hl
+  cases hp : Parse.parseTemplate cfg (Parse.fuelFor (Parse.itemsOf evs))
+      { input := input, name := name, toks := Parse.itemsOf evs } with
+  | ok r s =>
+    have := C02P.successful_parse_receives_every_item cfg name input _ _ hw r s hp
+    simp [Handover.finished, this]
+  | err l2 m2 => exact fun left => C02H.error_path_empties_the_channel left
+  | crash w => trivial
+  | fuel => trivial
+  | unsupported w => trivial
 
 /-! ### the parser always ends -/
 
